@@ -1103,6 +1103,20 @@ func (x *Exec) nativeArg(v Value) (interface{}, bool) {
 		if vv.Conc {
 			return vv.C, true
 		}
+	case Slice:
+		// a concrete byte slice (e.g. a hash sum formatted with %x)
+		if vv.Nil {
+			return []byte(nil), true
+		}
+		out := make([]byte, len(vv.S))
+		for i, e := range vv.S {
+			t, ok := e.(*Term)
+			if !ok || !t.IsConst() || t.W != 8 {
+				return nil, false
+			}
+			out[i] = byte(t.C)
+		}
+		return out, true
 	}
 	return nil, false
 }
